@@ -33,7 +33,7 @@ CHECKS = {
          "and a struct entry type, is driven by every protocol-legal (enq offer, msg, deq offer) letter from every reachable state; rdy/val, delivered message, "
          "fire signals and count are compared with a list model each cycle. The CL<->RTL adapters of stdlib/ifcs/send_recv_ifcs.py are exercised in chains CL producer -> RecvCL2SendRTL -> "
          "en/rdy queue -> RecvRTL2SendCL -> CL consumer (inserted by connect()) for every offer sequence of length <= 4 (6): delivered is a prefix of accepted, buffering is bounded, "
-         "nothing is lost after draining.",
+         "nothing is lost after draining; the same chains into each CL queue (stored entries must not change with the source signal, sequences <= 3 (4)) and RTL queues wrapped behind CalleeIfcCL ports of a parent driven by two blocks.",
          "Trusted: vt/fifo.py (40 lines) and the en/rdy clipping loop of the harness. valrdy_queues.py is unimportable on this tree and therefore not covered. "
          "Reset mid-history is not part of the property and not explored.",
          "DESIGN.md 6.C17", "E1 E4"),
@@ -107,7 +107,7 @@ CHECKS = {
  "C15": ("model_checking",
          "explicit-state exploration over histories of replace_component calls on a real elaborated design; differential oracle vs the from-scratch build (metadata, simulation) + object-graph reachability sweep",
          "Every history of length <= 2 (3) of replace_component / replace_component_with_obj over 5 positions (top child, list elements, grand-child, list element below a non-top parent) "
-         "and 8 classes (comb, ff, nested child + const + slice connection + U<U, RD/WR constraints, lambdas, slicing blocks, CL with update_once + M constraints, internal method net) is applied; "
+         "and 9 classes (comb, ff, nested child + const + slice connection + U<U, RD/WR constraints, lambdas, slicing blocks, CL with update_once + M constraints, internal method net, a class without method ports) is applied; the parent / top hold constraints on blocks, method ports and non-blocking interfaces of the replaced objects, functions that read ports two levels down, update_ff writes into child ports and blocks looping over the child list; "
          "all queryable metadata is compared by name with the design built directly, both are simulated over all input sequences of length 2, and nothing of a removed subtree may be reachable from top.",
          "Trusted: the canonicalisation in meta() (names only). One hierarchy shape; add_value_port/add_connection APIs are not explored.",
          "DESIGN.md 6.C15", "E1"),
@@ -125,14 +125,14 @@ CHECKS = {
          "Over a fixed 4-component hierarchy with a 52-entry alphabet of legal connections (signal-signal at each level, slices, slices of slices, struct fields, slices of struct fields, "
          "constants, slices overlapping / containing / inside block-driven slices) every multiset of size <= 3 (4) that the harness's own bit-level analysis finds legal is elaborated "
          "under every statement order, side flips and hash permutations; get_all_value_nets() must equal the connected components with the unique driver as writer, identically for all "
-         "orders, and every signal must simulate to the reference value.",
+         "orders, and every signal must simulate to the reference value. Hand-written cases: a constant object reused for two connections and modified in between / afterwards.",
          "Trusted: vt/irref.py driver propagation and the role table in c08.expected_nets. Sets it finds illegal are skipped (C09's domain). Quick tier takes every third triple family.",
          "DESIGN.md 6.C08", "E1 E2"),
  "C09": ("exploration",
          "bounded exhaustive enumeration of small designs with at most one structural defect (and every defect-free sibling) x statement orders x hash permutations; verdict vs independent bit-level driver / port-rule analysis",
          "About 1100 designs: two writes to one carrier over all access-shape pairs (whole, overlapping/adjacent/contained slices, bits, fields, nested fields, list elements with constant and "
          "variable index, struct with list field) by the same block, two comb blocks, comb+ff, comb+lambda, block+net (from input, constant, driven wire), net+net, child/parent/grand-parent "
-         "positions; undriven nets, connection loops, duplicate connections, overlapping slice nets; every port rule Type 1-9 and the loop-back rule with its legal counterpart; every "
+         "positions; undriven nets, connection loops, duplicate connections, overlapping slice nets; every port rule Type 1-9 and the loop-back rule with its legal counterpart, also seen from the component that makes the connection (grand-parent connecting two grand-children, parent driving an out port / a wire of its child); mismatching interfaces connected in both orders; every "
          "assignment operator in update / update_ff on whole signals, list elements, slices, fields; writes reaching a signal through @s.func functions (two callers, nested calls, diamonds). elaborate() must raise the class the analysis predicts, or nothing. "
          "Thorough adds ~760 three-writer designs (every multiset of three access shapes; three blocks / two in one block / one block / two blocks + a net) under all block orders and 6 hash permutations.",
          "Trusted: c09.analyze (per-bit driver sets, net source propagation, port-direction table). Designs with several simultaneous defects are not generated.",
@@ -140,9 +140,9 @@ CHECKS = {
  "C18": ("model_checking",
          "exhaustive request streams x port splits x timing configurations x stall-oracle schedules (deviation bounded) on the real memories; linearizability vs a byte-level reference by brute-force interleaving search",
          "MagicMemoryCL (1-2 ports) and the stream MagicMemoryRTL are driven by scripted sources/sinks: every stream of <= 2 requests (3 over a collision sub-alphabet) from an 18-letter alphabet "
-         "(word / half / byte / 3-byte / unaligned writes and reads on overlapping addresses, all nine AMOs on a word with bit 31 set), every 2-port split over the collision alphabet, "
-         "7 (60) timing configurations incl. long back-pressure, stall oracle with deviation bound 1 (2). Responses and the final image must equal some real-time-consistent sequential execution.",
-         "Trusted: vt/memref.py and the interleaving search. MagicMemoryFL is exercised only through the CL/stream wrappers; sub-word AMOs are outside the alphabet.",
+         "(word / half / byte / 3-byte / unaligned writes and reads on overlapping addresses, all nine AMOs on a word with bit 31 set, sub-word AMOs of 1-3 bytes), every 2-port split over the collision alphabet, "
+         "7 (60) timing configurations incl. long back-pressure, stall oracle with deviation bound 1 (2). Responses and the final image must equal some real-time-consistent sequential execution. Edge cases of the direct FL model: every access whose range touches the first / last byte of the memory, read_mem / write_mem over every range.",
+         "Trusted: vt/memref.py and the interleaving search. MagicMemoryFL is exercised through the CL/stream wrappers and directly for the edge cases.",
          "DESIGN.md 6.C18", "E1 E4"),
  "C20": ("exploration",
          "bounded exhaustive enumeration of instruction windows x manager values x timing configurations x deviation-bounded stall schedules on ProcFL/CL/RTL vs an independent ISA interpreter; all 4^8 checksum inputs",
@@ -162,11 +162,11 @@ CHECKS = {
          "DESIGN.md 6.C10", "E1"),
  "C03": ("translation_validation",
          "bounded exhaustive enumeration of designs and inputs; the emitted SystemVerilog is executed by an own interpreter of the emitted subset and compared with the PyMTL simulation and the IR reference; driver map per bit",
-         "About 1140 designs -- all translatable members of the E2 families (access-shape products over Bits / struct / nested struct / list / struct-with-list carriers, hierarchy, nets, "
+         "About 1200 designs -- all translatable members of the E2 families (access-shape products over Bits / struct / nested struct / list / struct-with-list carriers, hierarchy, nets, "
          "registers), ~5700 (more in thorough) typed expression / statement blocks (all operators, casts, zext/sext/trunc/concat/reduce, conditionals, variable indices, slices, fields, "
          "loops incl. descending / strided, temporaries), struct ports of five shapes moved by connections, 2-D interface arrays, interfaces holding port arrays, arrays of parameterised "
-         "sub-components -- are translated by the real VerilogTranslationPass; the text is parsed and simulated for every input vector / sequence and every output port is compared each step.",
-         "Trusted base: vt/svparse.py + vt/svsim.py (IEEE 1800 clause 11 sizing, two-state, unsigned) -- no Verilog simulator exists in the sandbox; it is calibrated by three-way agreement with "
+         "sub-components, heterogeneous interface / component lists, nested interface arrays indexed by expressions, ~100 hand-written statement designs (vt/stmtfam.py) -- are translated by the real VerilogTranslationPass; the text is parsed and simulated for every input vector / sequence and every output port is compared each step; the declared width of every top-level port is compared with the PyMTL port. Nine designs are also translated after the same instance has been simulated: same text as a fresh instance, or refused.",
+         "Trusted base: vt/svparse.py + vt/svsim.py (IEEE 1800 clause 11 sizing and signedness, two-state) -- no Verilog simulator exists in the sandbox; it is calibrated by three-way agreement with "
          "PyMTL and vt/irref.py. Syntactic validity is decided for the emitted subset only.",
          "DESIGN.md 6.C03", "E1 E2 E3"),
  "C12": ("translation_validation",
